@@ -408,7 +408,7 @@ pub fn run(tier: Tier, seed: u64) -> i32 {
         Ok(())
     });
     // random tier
-    let n = ctx.pick(60_000, 1_500_000);
+    let n = ctx.pick(250_000, 4_000_000);
     ctx.par_random(n, 200, 10, |tape, l| {
         let (g, input, seed) = decode(tape);
         debug_assert!(wf(&g), "ill-formed: {}", render(&g));
